@@ -616,12 +616,29 @@ class Lib:
             return self.call_method(ctx, b.bound, name[len("method."):], args, kwargs)
         if name.startswith("exc."):
             return self.call_exc_method(ctx, b.bound, name[len("exc."):], args, kwargs)
+        self._lib_pre(ctx, name, args, kwargs)
         fn = getattr(self, "bi_" + name.replace(".", "_"), None)
         if fn is None:
             if name.startswith("typing."):
                 return V.Opaque(name)
             raise EngineLimit("call of external function %s" % name)
         return fn(ctx, *args, **kwargs)
+
+    def _lib_pre(self, ctx, name, args, kwargs):
+        """Assert-style obligations on the arguments of a library call made by the function under verification:
+           the contract declares `lib_pre = {"<library function>": fn(s, args) -> dict label -> clause}`; each clause is
+           obligated under the path condition at the call (inside a set-building loop: for an arbitrary iteration)."""
+        c = getattr(ctx, "top_contract", None)
+        if c is None or ctx.spec_mode or ctx.inline_depth:
+            return
+        table = getattr(c, "lib_pre", None) or getattr(c.impl, "lib_pre", None)
+        if not table or name not in table:
+            return
+        from .symexec import short, lift_bool
+
+        r = self.e.run_spec(ctx, table[name], ctx.top_ns, list(args))
+        for label, clause in (r or {}).items():
+            ctx.oblige("%s/lib-pre#%s#%s" % (short(ctx.func), name.split(".")[-1], label), lift_bool(clause), kind="assert")
 
     def call_exc_method(self, ctx, exc, name, args, kwargs):
         if name == "set_error_location_if_unknown":
@@ -809,6 +826,8 @@ class Lib:
 
     def hash_of(self, ctx, x):
         """hash() of builtin values: an uninterpreted function of the value (equal values => equal hashes)."""
+        if hasattr(x, "term") and type(x).__name__ == "_RawHash":
+            return x.term  # spec side: a tuple component whose hash is given directly
         if isinstance(x, tuple):
             h = self.e.uf("hash!tuple%d" % len(x), *([z3.IntSort()] * len(x)), z3.IntSort())
             return h(*[V.Int.unwrap(self.bi_hash(ctx, c)) for c in x])
@@ -827,6 +846,8 @@ class Lib:
                 return self.e.uf("hash!str", z3.StringSort(), z3.IntSort())(x)
             if z3.is_real(x):
                 return self.e.uf("hash!real", z3.RealSort(), z3.IntSort())(x)
+            if x.sort() == V.PyValSort:
+                return self.e.uf("hash!val", V.PyValSort, z3.IntSort())(x)
         if isinstance(x, V.FractionV):
             return self.e.uf("hash!real", z3.RealSort(), z3.IntSort())(x.term)
         if isinstance(x, SymSet):
